@@ -10,6 +10,7 @@ CONSTANTS
   Rts = {}
   Lbs = {"rr", "rand"}
   HostSets = {{}, {"h1"}, {"h1", "h2"}, {"h2", "h3"}}
+  Attrs = {"a1"}
   LocLists = {"L0", "L1", "L2", "L3", "L2e"}
   Defects = {}
 SPECIFICATION Spec
